@@ -20,7 +20,7 @@ PROPERTY = "C16"
 NSHARDS = {"quick": 4, "thorough": 16}
 CLAUSES = {
     "C16.roundtrip.hdf5": 400, "C16.roundtrip.table": 400,
-    "C16.lastwrite": 150, "C16.lastwrite.handle": 300,
+    "C16.lastwrite": 150, "C16.lastwrite.handle": 300, "C16.lastwrite.locations": 300,
     "C16.vcf.phased": 100, "C16.vcf.unphased": 100,
     "C16.copy.equal": 400, "C16.copy.isolated": 200,
     "C16.returns": 500,
@@ -39,8 +39,11 @@ RULE = ("seeded class-based zoo over 34 classes (7 core labelled-matrix base cla
         "nested / trailing slash / non-ASCII / with spaces; file given as str / Path / open h5py.File; write histories of "
         "2-4 objects on one location (richer->poorer, poorer->richer, same, cross-class); multi-step sessions through one "
         "caller-owned open h5py.File (2-3 groups written, read back - some twice -, overwritten, read again; handle checked "
-        "open and usable after every call; file judged after the caller closes it); harness-written VCF text (1-4 "
-        "contigs, shuffled records, missing IDs, multi-allelic calls, extra FORMAT keys, non-ASCII sample names; plus a "
+        "open and usable after every call; file judged after the caller closes it), the same histories by file name and by "
+        "handle-then-file-name, with the base group (None or '/') among the locations in every order - every location must "
+        "read back its last object; harness-written VCF text (1-4 "
+        "contigs, shuffled records, missing IDs, multi-allelic calls, extra FORMAT keys, FILTER values PASS / '.' / q10 / LowQual / "
+        "'q10;s50', QUAL present or missing, INFO fields and flags, multi-character REF/ALT, non-ASCII sample names; plus a "
         "'many variants, few samples' class of 1025/1500/2600/4100 variants x 1-4 samples, about 6 files per quick run).  A case is "
         "non-trivial when the object has more than one entry on some labelled axis; distinct = digest of the object's "
         "observation plus the route/options.")
@@ -1089,13 +1092,16 @@ def case_handle_session(ctx, c):
     import h5py
     g = ctx.rng("hs", c)
     coords = [c, "hs"]
-    clause = "C16.lastwrite.handle"
+    via = pick(g, ["handle", "handle", "file name", "file name", "handle then file name"])
+    clause = "C16.lastwrite.handle" if via == "handle" else "C16.lastwrite.locations"
     kind = HDF5_CLASSES[(c // 5) % len(HDF5_CLASSES)]
     d = scratch_dir()
     f = None
     try:
         ng = int(g.integers(2, 4))
         groups = [GROUPS[i] for i in g.choice(len(GROUPS), ng, replace=False)]
+        if None not in groups and g.random() < 0.6:         # the base group of the file, in either spelling, at any place
+            groups[int(g.integers(ng))] = pick(g, [None, "/"])
         kinds = [kind] + [kind if g.random() < 0.7 else pick(g, HDF5_CLASSES) for _ in range(ng - 1)]
         cur = [build(g, k) for k in kinds]                     # object currently meant to be in each group
         over = [build(g, kinds[i], richness=pick(g, ["poor", "rich"])) for i in range(ng)]   # what overwrites it later
@@ -1117,12 +1123,14 @@ def case_handle_session(ctx, c):
                     ctx.raised("handle session: plain round trip of an object", e)
                     refs[id(spec)] = None
             return refs[id(spec)]
-        ctx.case("handle session/" + kind, [OE.digest(OE.observe(s_.obj)) for s_ in cur + over], repr(groups), repr(script), trivial=False)
+        ctx.case(("handle session/" if via == "handle" else "multi-location session by %s/" % via) + kind, [OE.digest(OE.observe(s_.obj)) for s_ in cur + over], repr(groups), repr(script), trivial=False)
         if c % 97 == 0:
             ctx.sample({"case": c, "route": "one caller-owned h5py.File", "classes": kinds, "groups": groups, "script": script})
         path = os.path.join(d, "session.h5")
-        f = h5py.File(path, pick(g, ["a", "w"]))
-        wit = {"classes": kinds, "groups": groups, "script": script}
+        f = h5py.File(path, pick(g, ["a", "w"])) if via != "file name" else None
+        switch = int(g.integers(2, len(script) - 1)) if via == "handle then file name" else len(script)
+        wit = {"classes": kinds, "groups": groups, "script": script, "access": via}
+        lastw = None                # (site, location index) of the most recent write
         ncalls = 0
         aborted = False
         for step, (op, i) in enumerate(script):
@@ -1131,25 +1139,50 @@ def case_handle_session(ctx, c):
             spec = cur[i]
             cls = type(spec.obj)
             site = defsite(cls, "from_hdf5" if op == "r" else "to_hdf5")
-            when = "first call on the handle" if ncalls == 0 else "after earlier calls on the same handle"
-            w2 = dict(wit, step=step, op=op, group=groups[i])
+            if f is not None and step >= switch:        # the caller closes its handle; the rest of the history goes by file name
+                f.close(); f = None
+            by_handle = f is not None
+            target = f if by_handle else path
+            if by_handle:
+                when = "first call on the handle" if ncalls == 0 else "after earlier calls on the same handle"
+            else:
+                when = "by file name, base group involved" if any(x in (None, "/") for x in groups) else "by file name, named groups only"
+            # a location that breaks after a write to ANOTHER location is the business of that write
+            blame = lastw[0] if (op == "r" and lastw is not None and lastw[1] != i and not by_handle) else site
+            w2 = dict(wit, step=step, op=op, group=groups[i], **{"through": "handle" if by_handle else "file name"})
             try:
                 if op == "r":
                     extra = {"gpmod": spec.meta["gpmod"]} if spec.kind in ("G_E_Phenotyping", "TruePhenotyping") else {}
-                    got = cls.from_hdf5(f, groups[i], **extra)
+                    got = cls.from_hdf5(target, groups[i], **extra)
                 else:
-                    spec.obj.to_hdf5(f, groups[i])
+                    spec.obj.to_hdf5(target, groups[i])
+                    lastw = (site, i)
             except Exception as e:
-                ctx.raised(site + " through a caller-owned handle", e)
-                if ref_of(spec) is None:        # the same call fails with a file name too: not this clause's business
+                ctx.raised(site + (" through a caller-owned handle" if by_handle else " within a multi-location history"), e)
+                if ref_of(spec) is None:        # the same call fails on a fresh file too: not this clause's business
                     aborted = True
                     break
-                ctx.check(clause, False, site, "call through a caller-owned open h5py.File succeeds (raised %s)" % norm_msg(e), when,
-                          what="%s raised through an open handle although the same call works with a file name: %s: %s"
-                               % (site, type(e).__name__, str(e)[:160]), witness=w2, coords=coords)
+                if by_handle:
+                    ctx.check(clause, False, site, "call through a caller-owned open h5py.File succeeds (raised %s)" % norm_msg(e), when,
+                              what="%s raised through an open handle although the same call works with a file name: %s: %s"
+                                   % (site, type(e).__name__, str(e)[:160]), witness=w2, coords=coords)
+                else:
+                    ctx.check(clause, False, blame, "every location of the file stays readable/writable during a write history over "
+                              "several locations (raised %s)" % norm_msg(e), when,
+                              what="%s raised at location %r after writes to other locations of the same file: %s: %s"
+                                   % (site, groups[i], type(e).__name__, str(e)[:160]), witness=w2, coords=coords)
                 aborted = True
                 break
             ncalls += 1
+            if not by_handle:
+                if op == "r":
+                    ref = ref_of(spec)
+                    if ref is not None:
+                        diffs = OE.diff(ref, OE.observe(got))
+                        ctx.check(clause, not diffs, blame, "every location reads back the last object written to it", when,
+                                  what="%s at %r: %s" % (site, groups[i], diffs),
+                                  witness=dict(w2, expected=ref, got=OE.observe(got), differing=diffs), coords=coords)
+                continue
             alive = bool(f.id.valid)
             usable = False
             if alive:
@@ -1168,10 +1201,11 @@ def case_handle_session(ctx, c):
                     diffs = OE.diff(ref, OE.observe(got))
                     ctx.check(clause, not diffs, site, "object read through the open handle equals the last one written to that group", when,
                               what="%s: %s" % (site, diffs), witness=dict(w2, expected=ref, got=OE.observe(got), differing=diffs), coords=coords)
-        try:
-            f.close()
-        except Exception:
-            pass
+        if f is not None:
+            try:
+                f.close()
+            except Exception:
+                pass
         f = None
         if aborted:
             return
@@ -1362,19 +1396,41 @@ def make_vcf(g, lcls, big=0):
         recs.sort(key=lambda r: (r["chrom"], r["pos"]))
     else:
         recs = [recs[i] for i in g.permutation(len(recs))]
-    lines = ["##fileformat=VCFv4.2"] + ["##contig=<ID=%d>" % c for c in contigs]
+    # record annotations that do not touch the calls: FILTER values, QUAL present/missing, INFO fields, long REF/ALT alleles,
+    # 'chr'-prefixed contig names
+    annot = bool(g.random() < 0.6)
+    chrpfx = "chr" if (annot and not big and g.random() < 0.15) else ""
+    filters = ["PASS", ".", "q10", "LowQual", "q10;s50"]
+    nm = len(recs)
+    fcol = [pick(g, filters) for _ in range(nm)] if annot else [("PASS" if extra_fmt else ".")] * nm
+    qcol = [pick(g, [".", "30", "99.5", "0"]) for _ in range(nm)] if annot else ["."] * nm
+    longal = annot and g.random() < 0.4
+    lines = ["##fileformat=VCFv4.2"] + ["##contig=<ID=%s%d>" % (chrpfx, c) for c in contigs]
     lines.append('##FORMAT=<ID=GT,Number=1,Type=String,Description="Genotype">')
+    if annot:
+        lines += ['##FILTER=<ID=q10,Description="Quality below 10">', '##FILTER=<ID=s50,Description="Few samples">',
+                  '##FILTER=<ID=LowQual,Description="Low quality">', '##INFO=<ID=NS,Number=1,Type=Integer,Description="Samples">',
+                  '##INFO=<ID=DB,Number=0,Type=Flag,Description="dbSNP">']
+    if extra_fmt or annot:
+        lines.append('##INFO=<ID=AF,Number=A,Type=Float,Description="Allele frequency">')
     if extra_fmt:
         lines.append('##FORMAT=<ID=DP,Number=1,Type=Integer,Description="Depth">')
-        lines.append('##INFO=<ID=AF,Number=A,Type=Float,Description="Allele frequency">')
+        lines.append('##FORMAT=<ID=GQ,Number=1,Type=Integer,Description="Genotype quality">')
     lines.append("\t".join(["#CHROM", "POS", "ID", "REF", "ALT", "QUAL", "FILTER", "INFO", "FORMAT"] + samples))
-    for r in recs:
-        gt = ["%d|%d%s" % (a, b, ":%d" % int(g.integers(1, 60)) if extra_fmt else "") for a, b in r["calls"]]
-        info = "AF=" + ",".join("0.1" for _ in r["alt"].split(",")) if extra_fmt else "."
-        lines.append("\t".join([str(r["chrom"]), str(r["pos"]), r["id"] or ".", r["ref"], r["alt"], ".", "PASS" if extra_fmt else ".", info,
-                                "GT:DP" if extra_fmt else "GT"] + gt))
-    cls = "%s/%s%s%s" % (order, "multi-allelic" if multi else "bi-allelic", "/missing IDs" if any(r["id"] is None for r in recs) else "",
-                         "/extra FORMAT keys" if extra_fmt else "")
+    for j, r in enumerate(recs):
+        gt = ["%d|%d%s" % (a, b, ":%d:%d" % (int(g.integers(1, 60)), int(g.integers(1, 99))) if extra_fmt else "") for a, b in r["calls"]]
+        nalt_ = len(r["alt"].split(","))
+        af = "AF=" + ",".join("0.1" for _ in range(nalt_))
+        info = (pick(g, [".", af, "NS=%d;%s" % (len(samples), af), "NS=3;DB"]) if annot else (af if extra_fmt else "."))
+        ref, alt = r["ref"], r["alt"]
+        if longal and j % 2 == 0:
+            ref, alt = "ATG", ",".join(["A", "ATGTG", "AT"][:nalt_])
+        lines.append("\t".join(["%s%d" % (chrpfx, r["chrom"]), str(r["pos"]), r["id"] or ".", ref, alt, qcol[j], fcol[j], info,
+                                "GT:DP:GQ" if extra_fmt else "GT"] + gt))
+    nonpass = any(f not in ("PASS", ".") for f in fcol)
+    cls = "%s/%s%s%s%s%s" % (order, "multi-allelic" if multi else "bi-allelic", "/missing IDs" if any(r["id"] is None for r in recs) else "",
+                           "/extra FORMAT keys" if extra_fmt else "", "/FILTER other than PASS" if nonpass else "",
+                           "/chr-prefixed contigs" if chrpfx else "")
     return "\n".join(lines) + "\n", samples, recs, cls
 
 
@@ -1401,10 +1457,19 @@ def case_vcf(ctx, c):
             f.write(text)
         for phased, cls, clause in ((True, DensePhasedGenotypeMatrix, "C16.vcf.phased"), (False, DenseGenotypeMatrix, "C16.vcf.unphased")):
             site = defsite(cls, "from_vcf")
-            try:
-                gm = guarded(ctx, site, "vcf", coords, lambda: cls.from_vcf(path, auto_group_vrnt=auto), {"vcf": text[:4000]})
-            except Raised:
-                continue
+            if "chr-prefixed contigs" in vcls:
+                # chromosome labels of the library are integers: a reader may strip the prefix or reject the file; only a
+                # successful import is judged
+                try:
+                    gm = cls.from_vcf(path, auto_group_vrnt=auto)
+                except Exception as e:
+                    ctx.raised(site + " on chr-prefixed contig names", e)
+                    continue
+            else:
+                try:
+                    gm = guarded(ctx, site, "vcf", coords, lambda: cls.from_vcf(path, auto_group_vrnt=auto), {"vcf": text[:4000]})
+                except Raised:
+                    continue
             if big:     # keep replay files small: the case is regenerated from its coordinates
                 wit = {"vcf (head)": "\n".join(text.split("\n")[:12]), "variants": len(recs), "samples": samples, "auto_group_vrnt": auto}
             else:
@@ -1413,6 +1478,13 @@ def case_vcf(ctx, c):
             ok_t = (isinstance(gm.taxa, numpy.ndarray) and gm.taxa.dtype == object and gm.taxa.tolist() == samples)
             ctx.check(clause, ok_t, site, "sample names reproduced in order", lcls, witness=wit, coords=coords)
             m, n = len(recs), len(samples)
+            nimp = gm.mat.shape[-1] if gm.mat.ndim >= 2 else -1
+            ctx.check(clause, nimp == m, site, "every record of the file is imported (one variant per record)",
+                      "records with FILTER other than PASS or '.'" if "FILTER other than PASS" in vcls else "all records PASS or '.'",
+                      what="%s imported %d variants from a file with %d records (all with phased diploid calls)" % (site, nimp, m),
+                      witness=wit, coords=coords)
+            if nimp != m:
+                continue
             shape_ok = (gm.mat.shape == ((2, n, m) if phased else (n, m))) and gm.mat.dtype == numpy.int8
             ctx.check(clause, shape_ok, site, "allele array is int8 of shape (phase, taxa, variant)" if phased else
                       "genotype array is int8 of shape (taxa, variant)", vcls.split("/")[1], witness=wit, coords=coords)
